@@ -222,6 +222,10 @@ def run(prog: Program, rep, thorough: bool) -> None:
                 continue
             n_paths += 1
             vals = [ev.scalar(i_) for i_ in case.items]
+            loopy = sorted({s_ for v_ in vals for s_ in v_.symbols() if '@loop' in s_})
+            if loopy:
+                raise AnalysisError(f'one iteration of the integration loop contains a loop of its own that the evaluator cannot read '
+                                    f'(`{loopy[0]}`): the step is not decidable in this shape')
             _check_case(ev, F, vals[0:3], vals[3:6], vals[6], W, Ps, Vs, g_vec, K, problems)
         continue
     if n_paths == 0:
